@@ -226,7 +226,26 @@ func cmdCheck(args []string) {
 	if *tier == "thorough" {
 		timeout = 90 * time.Second
 	}
-	solveAll(obls, timeout, portfolio, 12)
+	// an obligation listed as an open finding is expected to fail: give it a short timeout (if the defect has been
+	// repaired it is still proved within it - the recorded ones are otherwise decided in about a second)
+	var rest, listed []*Obligation
+	openNames := map[string]bool{}
+	for _, k := range loadKnown() {
+		if k.Status == "open" {
+			openNames[k.Obligation] = true
+		}
+	}
+	for _, o := range obls {
+		if openNames[o.Name] {
+			listed = append(listed, o)
+		} else {
+			rest = append(rest, o)
+		}
+	}
+	solveAll(rest, timeout, portfolio, 12)
+	if len(listed) > 0 {
+		solveAll(listed, 4*time.Second, portfolio, 12)
+	}
 
 	// evaluated base cases and bounded stand-ins (labelled bounded; never counted as proved)
 	btests := []string{"TestVerifGlobals"}
@@ -262,7 +281,8 @@ func cmdCheck(args []string) {
 	isKnown := func(o *Obligation) *KnownFinding {
 		for i := range known {
 			k := &known[i]
-			if k.Status == "open" && k.Obligation == o.Name && (k.Property == prop || hasTag(k.Properties, prop)) {
+			// properties ["*"]: the function lies in the dependency closure of many checks; the finding is the same in each
+			if k.Status == "open" && k.Obligation == o.Name && (k.Property == prop || hasTag(k.Properties, prop) || hasTag(k.Properties, "*")) {
 				return k
 			}
 		}
@@ -380,7 +400,8 @@ func cmdCheck(args []string) {
 		"seed":        seed,
 		"level":       "proof",
 		"coverage": map[string]interface{}{
-			"obligations":                          len(obls),
+			"obligations":                          len(obls) - len(knownHit),
+			"obligations_listed_as_open_findings":  len(knownHit),
 			"discharged":                           discharged,
 			"checker_cmd":                          "bin/apdvc check " + prop + " --tier " + *tier,
 			"trusted_base":                         tb,
@@ -408,7 +429,7 @@ func cmdCheck(args []string) {
 	os.MkdirAll(filepath.Join(verifDir(), "evidence"), 0o755)
 	data, _ := json.MarshalIndent(ev, "", " ")
 	os.WriteFile(filepath.Join(verifDir(), "evidence", prop+".json"), data, 0o644)
-	fmt.Printf("%s: %d obligations, %d discharged, %d known findings, %d violations, %d functions, %.1fs\n", prop, len(obls), discharged, len(knownHit), len(violations), len(fl), time.Since(start).Seconds())
+	fmt.Printf("%s: %d obligations, %d discharged, %d known findings, %d violations, %d functions, %.1fs\n", prop, len(obls)-len(knownHit), discharged, len(knownHit), len(violations), len(fl), time.Since(start).Seconds())
 	if boundedFail != "" {
 		os.MkdirAll(repDir, 0o755)
 		bp := filepath.Join(repDir, "bounded.json")
@@ -501,6 +522,24 @@ func lemmaObligations(W *World, prop string, needed map[string]bool) []*Obligati
 }
 
 // writeReplay records a failed obligation; returns true when a concrete failing input was confirmed on the real code.
+var diagCount = map[string]int{}
+var witnessCache = map[string]*Witness{}
+
+// concretiseCached: the run-time check exercises the whole contract of the function, so its outcome is the same for
+// every failed obligation of that function - except that a hang counts only for termination obligations.
+func concretiseCached(W *World, o *Obligation, timeout time.Duration) *Witness {
+	key := o.Fn
+	if strings.Contains(o.Name, "/errexit") || strings.Contains(o.Name, "/decreases") {
+		key += "#termination"
+	}
+	if w, ok := witnessCache[key]; ok {
+		return w
+	}
+	w := concretise(W, o, timeout)
+	witnessCache[key] = w
+	return w
+}
+
 func writeReplay(W *World, o *Obligation, path, prop string, timeout time.Duration) bool {
 	rec := map[string]interface{}{
 		"property":      prop,
@@ -513,10 +552,19 @@ func writeReplay(W *World, o *Obligation, path, prop string, timeout time.Durati
 		"backend":       o.Backend,
 		"solver_output": truncate(o.Output, 4000),
 		"query_file":    obFile(o, ""),
-		"failing_parts": diagnose(o, timeout),
+	}
+	// which conjuncts fail: for the first few failed obligations of a function only, with a short timeout (a change that
+	// breaks one function typically fails dozens of its obligations; splitting every one of them costs minutes)
+	diagCount[o.Fn]++
+	if diagCount[o.Fn] <= 3 {
+		dt := timeout
+		if dt > 6*time.Second {
+			dt = 6 * time.Second
+		}
+		rec["failing_parts"] = diagnose(o, dt)
 	}
 	confirmed := false
-	if w := concretise(W, o, timeout); w != nil {
+	if w := concretiseCached(W, o, timeout); w != nil {
 		rec["counterexample"] = w.Desc
 		rec["replay_test"] = w.TestFile
 		rec["replay_output"] = w.Output
